@@ -320,9 +320,16 @@ func VerifC03Fetch() {
 	case 3:
 		extended = nd.Bool()
 		o.BodyStructure = &imap.FetchItemBodyStructure{Extended: extended}
-		inner := c03single(1, extended)
+		// nesting is the subject here: the leaves are fixed apart from one symbolic byte
+		inner := &imap.BodyStructureSinglePart{Type: "text", Subtype: "plain", Encoding: "8bit", Size: 5,
+			Params: map[string]string{"charset": c03utf8(1)}, Text: &imap.BodyStructureText{NumLines: int64(c02num(2))}}
+		second := &imap.BodyStructureSinglePart{Type: "image", Subtype: "png", Encoding: "base64", Size: 99, ID: "<i@d>"}
+		if extended {
+			inner.Extended = &imap.BodyStructureSinglePartExt{Language: []string{"en"}}
+			second.Extended = &imap.BodyStructureSinglePartExt{Disposition: &imap.BodyStructureDisposition{Value: "inline"}}
+		}
 		if nd.Bool() {
-			mp := &imap.BodyStructureMultiPart{Children: []imap.BodyStructure{inner, c03single(0, extended)}, Subtype: "mixed"}
+			mp := &imap.BodyStructureMultiPart{Children: []imap.BodyStructure{inner, second}, Subtype: "mixed"}
 			if extended {
 				mp.Extended = &imap.BodyStructureMultiPartExt{Params: map[string]string{"boundary": "b"}}
 			}
@@ -338,14 +345,25 @@ func VerifC03Fetch() {
 	case 4:
 		n := 1 + nd.Choice(2)
 		for i := 0; i < n; i++ {
-			s := &imap.FetchItemBodySection{Peek: nd.Bool()}
-			s.Part = c02parts[nd.Choice(len(c02parts))]
-			s.Specifier = c02specs[nd.Choice(3)]
-			if s.Specifier == imap.PartSpecifierHeader && nd.Bool() {
-				s.HeaderFields = []string{"Subject", "X-" + c02bytesASCII(1)}
-			}
-			if i == 0 && nd.Bool() {
-				s.Partial = &imap.SectionPartial{Offset: int64(c02num(2 + nd.Choice(2))), Size: 100}
+			s := &imap.FetchItemBodySection{}
+			if i == 0 {
+				s.Peek = nd.Bool()
+				s.Part = [][]int{nil, {2, 1}, {1}, {12}}[nd.Choice(nd.Param("np"))]
+				s.Specifier = c02specs[nd.Choice(3)]
+				if s.Specifier == imap.PartSpecifierHeader && nd.Bool() {
+					s.HeaderFields = []string{"Subject", "X-" + c02bytesASCII(1)}
+				}
+				if nd.Bool() {
+					s.Partial = &imap.SectionPartial{Offset: int64(c02num(2 + nd.Choice(2))), Size: 100}
+				}
+			} else {
+				// a second, fixed section: order and pairing of the two literals
+				s.Part, s.Specifier = []int{1}, imap.PartSpecifierText
+				if nd.Param("np") > 2 {
+					s.Part = [][]int{nil, {2, 1}, {1}, {12}}[nd.Choice(4)]
+					s.Specifier = c02specs[nd.Choice(3)]
+					s.Peek = nd.Bool()
+				}
 			}
 			sections = append(sections, s)
 			p := nd.Bytes(k)
@@ -483,37 +501,56 @@ var c03attrs = []imap.MailboxAttr{imap.MailboxAttrNoSelect, imap.MailboxAttrHasC
 func VerifC03List() {
 	scfg, en := c02cfg()
 	k := nd.Param("k")
-	withStatus := nd.Param("status") == 1
+	// status: 0 = names (mailbox, OLDNAME) symbolic; 1 = RETURN (STATUS ...) pairing;
+	// 2 = attributes, delimiter, CHILDINFO symbolic
+	mode := nd.Param("status")
+	withStatus := mode == 1
 	c, vc := c02client(scfg, en)
 	n := 1 + nd.Choice(2)
 	var want []imap.ListData
 	for i := 0; i < n; i++ {
-		d := imap.ListData{Mailbox: c03utf8(k)}
-		if i == 1 {
-			d.Mailbox = "second/" + d.Mailbox
-		}
-		nd.Assume(len(d.Mailbox) > 0)
-		na := nd.Choice(3)
-		for j := 0; j < na; j++ {
-			d.Attrs = append(d.Attrs, c03attrs[nd.Choice(len(c03attrs))])
-		}
-		switch nd.Choice(3) {
-		case 0:
+		var d imap.ListData
+		if i == 0 {
+			// the first entry is the symbolic one
+			d.Mailbox = "first"
+			if mode != 2 {
+				d.Mailbox = c03utf8(k)
+				nd.Assume(len(d.Mailbox) > 0)
+			}
+			if a := nd.Choice(len(c03attrs) + 1); mode == 2 && a < len(c03attrs) {
+				d.Attrs = append(d.Attrs, c03attrs[a])
+				if nd.Bool() {
+					d.Attrs = append(d.Attrs, imap.MailboxAttrHasNoChildren)
+				}
+			}
 			d.Delim = '/'
-		case 1:
-			d.Delim = rune(nd.Byte())
-			nd.Assume(d.Delim >= 0x20 && d.Delim < 0x7f)
-		}
-		if !withStatus && nd.Bool() {
-			d.ChildInfo = &imap.ListDataChildInfo{Subscribed: true}
-		}
-		if !withStatus && nd.Bool() {
-			d.OldName = c03utf8(k)
-			nd.Assume(len(d.OldName) > 0)
-		}
-		if withStatus && nd.Bool() {
-			num := uint32(c02num(1 + nd.Choice(2)))
-			d.Status = &imap.StatusData{Mailbox: d.Mailbox, NumMessages: &num, UIDNext: imap.UID(c02num(0))}
+			if mode == 2 {
+				switch nd.Choice(3) {
+				case 1:
+					d.Delim = rune(nd.Byte())
+					nd.Assume(d.Delim >= 0x20 && d.Delim < 0x7f)
+				case 2:
+					d.Delim = 0
+				}
+				if nd.Bool() {
+					d.ChildInfo = &imap.ListDataChildInfo{Subscribed: true}
+				}
+			}
+			if mode == 0 && nd.Bool() {
+				d.OldName = c03utf8(k)
+				nd.Assume(len(d.OldName) > 0)
+			}
+			if withStatus && nd.Bool() {
+				num := uint32(c02num(1 + nd.Choice(2)))
+				d.Status = &imap.StatusData{Mailbox: d.Mailbox, NumMessages: &num, UIDNext: imap.UID(c02num(0))}
+			}
+		} else {
+			// a second, fixed entry: order and LIST-STATUS pairing
+			d = imap.ListData{Mailbox: "second/box", Delim: '/', Attrs: []imap.MailboxAttr{imap.MailboxAttrNoInferiors}}
+			if withStatus {
+				num := uint32(7)
+				d.Status = &imap.StatusData{Mailbox: d.Mailbox, NumMessages: &num, UIDNext: 9}
+			}
 		}
 		want = append(want, d)
 	}
@@ -588,9 +625,17 @@ func VerifC03Status() {
 	c, vc := c02client(scfg, en)
 	mb := c03utf8(k)
 	nd.Assume(len(mb) > 0)
-	want := &imap.StatusData{Mailbox: mb, NumMessages: c03u32p(0), NumUnseen: c03u32p(1), NumDeleted: c03u32p(2)}
+	want := &imap.StatusData{Mailbox: mb, NumMessages: c03u32p(1)}
 	if nd.Bool() {
-		want.UIDNext = imap.UID(c02num(1))
+		u := uint32(4)
+		want.NumUnseen = &u
+	}
+	if nd.Bool() {
+		d := uint32(0)
+		want.NumDeleted = &d
+	}
+	if nd.Bool() {
+		want.UIDNext = 4294967295
 		want.UIDValidity = uint32(c02num(0))
 	}
 	if nd.Bool() {
@@ -627,7 +672,8 @@ func VerifC03Status() {
 func VerifC03Select() {
 	scfg, en := c02cfg()
 	c, vc := c02client(scfg, en)
-	want := &imap.SelectData{Flags: c03flags(2, false), PermanentFlags: c03flags(2, true), NumMessages: uint32(c02num(1 + nd.Choice(2))), UIDNext: imap.UID(c02num(1)), UIDValidity: uint32(c02num(0))}
+	c.state, c.mailbox = imap.ConnStateAuthenticated, nil
+	want := &imap.SelectData{Flags: c03flags(1, false), PermanentFlags: c03flags(1, true), NumMessages: uint32(c02num(nd.Choice(2))), UIDNext: 4294967295, UIDValidity: uint32(c02num(0))}
 	cmd := (*SelectCommand)(nil)
 	wire := c02write(c, vc, func() { cmd = c.Select("box", &imap.SelectOptions{ReadOnly: nd.Bool()}) })
 	sess := &c02sess{selData: want}
@@ -654,7 +700,14 @@ func VerifC03Search() {
 	c, vc := c02client(scfg, en)
 	uid := nd.Bool()
 	ret := nd.Param("ret") // 0: plain SEARCH, 1: RETURN options (ESEARCH)
-	set := c02set(uid, nd.Choice(2))
+	var set imap.NumSet
+	if ret == 0 {
+		set = c02set(uid, 0)
+	} else if uid {
+		set = imap.UIDSetNum(3, 4, 9)
+	} else {
+		set = imap.SeqSetNum(3, 4, 9)
+	}
 	// search results are static sets
 	switch s := set.(type) {
 	case imap.SeqSet:
@@ -683,7 +736,8 @@ func VerifC03Search() {
 	c03feed(c, vc, c03tail(out, 2, en))
 	g, err := cmd.Wait()
 	nd.Assert(err == nil && g != nil, "search-reports-error")
-	esearch := ret == 1 || en == 2
+	// extended result form only if a result option was actually requested (or IMAP4rev2)
+	esearch := en == 2 || (so != nil && (so.ReturnMin || so.ReturnMax || so.ReturnAll || so.ReturnCount))
 	all := so == nil || so.ReturnAll || (!so.ReturnMin && !so.ReturnMax && !so.ReturnCount)
 	if all {
 		nd.Assert(c02setEq(g.All, set), "search-result-set-differs")
@@ -728,10 +782,9 @@ func VerifC03UIDs() {
 		nd.Assert(g.UID == want.UID && g.UIDValidity == want.UIDValidity, "appenduid-differs")
 	case 1:
 		src := c02set(true, 0).(imap.UIDSet)
-		dst := c02set(true, 1).(imap.UIDSet)
+		dst := imap.UIDSetNum(4294967294, 4294967295)
 		nd.Assume(!src.Dynamic())
-		nd.Assume(!dst.Dynamic())
-		want := &imap.CopyData{UIDValidity: uint32(c02num(0)), SourceUIDs: src, DestUIDs: dst}
+		want := &imap.CopyData{UIDValidity: uint32(c02num(1)), SourceUIDs: src, DestUIDs: dst}
 		cmd := (*CopyCommand)(nil)
 		wire := c02write(c, vc, func() { cmd = c.Copy(imap.SeqSetNum(1), "d") })
 		_, out := c02serveWith(&c02sess{copyData: want}, scfg, en, 2, wire)
@@ -742,12 +795,11 @@ func VerifC03UIDs() {
 		nd.Assert(g.UIDValidity == want.UIDValidity, "copyuid-validity-differs")
 		nd.Assert(c02setEq(g.SourceUIDs, src) && c02setEq(g.DestUIDs, dst), "copyuid-sets-differ")
 	default:
-		src := c02set(true, 0).(imap.UIDSet)
+		src := imap.UIDSetNum(5, 6)
 		dst := c02set(true, 1).(imap.UIDSet)
-		nd.Assume(!src.Dynamic())
 		nd.Assume(!dst.Dynamic())
-		want := &imap.CopyData{UIDValidity: uint32(c02num(0)), SourceUIDs: src, DestUIDs: dst}
-		exp := []uint32{uint32(c02num(0)), uint32(c02num(0))}
+		want := &imap.CopyData{UIDValidity: 77, SourceUIDs: src, DestUIDs: dst}
+		exp := []uint32{uint32(c02num(0)), 1}
 		cmd := (*MoveCommand)(nil)
 		wire := c02write(c, vc, func() { cmd = c.Move(imap.SeqSetNum(1, 2), "d") })
 		sess := &c02sess{}
